@@ -216,7 +216,7 @@ pub fn run(ctx: &mut Ctx) {
     ctx.rule = "metamorphic on results only: a generated history (interleaved groups with loss, duplication, reordering, noise; up to 10 lines), a position, and an extra line of one of the kinds the statement names (malformed, bad checksum, out-of-sequence / orphan / id-mismatched / not-validly-numbered fragment, unfragmented sentence with decodable or undecodable payload, decode on or off); the history is run with and without the extra line and every other result must be identical; in addition up to 64 probe fragments (final and non-final, k = 2..9, every id in play) are appended right after the insertion point on re-runs of the prefix, so that a hidden change of id, fragment number or accumulated data shows immediately. If the extra line turns out to be accepted as a fragment it is not a 'rejected line': skipped and counted. Independence: two parsers fed interleaved streams give what each gives alone. Non-trivial = the extra line lands while a group is open; distinct by (history, position, line).".into();
     ctx.assumptions = vec!["the derived Debug of AisParser is printed in replays for diagnosis only, never compared, so an internal refactoring cannot raise an alarm".into()];
     ctx.replay_regressions(check);
-    let n = ctx.tier.pick(6_000, 200_000);
+    let n = ctx.tier.pick(32_000, 200_000);
     ctx.run_proptest("insert-line", &STD, n, insert_inputs(10), check);
     let inter = (adversarial_events(10), adversarial_events(10), proptest::collection::vec(any::<bool>(), 20)).prop_map(|(a, b, order)| Input::Interleave {
         a: a.iter().map(render_ev).collect(),
